@@ -20,8 +20,8 @@ from valida.casting import CAST_LOOKUP
 from valida.datapath import MapValue, ListValue, MapOrListValue
 
 META = {
-    "rule": "H: every sequence of <= depth operations from the operation menu on one shared world (2 schemas with "
-            "9 rules, their conditions/paths/parts, 3 documents); executions are histories, none merged; state = "
+    "rule": "H: every sequence of <= depth operations from the operation menu on one shared world (5 schemas with "
+            "14 rules, one of them with a cast mapping supplied by the caller through the Python API, their conditions/paths/parts, 3 documents); executions are histories, none merged; state = "
             "identity-aware snapshot of the whole world (must stay the single initial state); non-trivial = "
             "history of >= 2 operations whose last result was compared with the fresh-object result. "
             "S: every schedule of 2 threads x 1-2 operations with <= k preemptions at line granularity",
